@@ -274,6 +274,48 @@ theorem components_class (nodes : List Nat) (es : List Edge) (f : Filt) (c : Lis
   rw [mem_bfsH]
   exact ⟨fun h => hu.symm.trans h, fun h => hu.trans h⟩
 
+/-! ## counting: a system of distinct representatives has as many members as there are components -/
+
+theorem length_le_of_rel {α β : Type} [DecidableEq β] (rel : α → β → Prop) :
+    ∀ (A : List α) (B : List β), A.Pairwise (fun a a' => ∀ b, rel a b → ¬ rel a' b) →
+      (∀ a ∈ A, ∃ b ∈ B, rel a b) → A.length ≤ B.length := by
+  intro A
+  induction A with
+  | nil => intro B _ _; simp
+  | cons a t ih =>
+    intro B hp hex
+    obtain ⟨b, hb, hab⟩ := hex a List.mem_cons_self
+    have hp' := List.pairwise_cons.mp hp
+    have := ih (B.erase b) hp'.2 (by
+      intro a' ha'
+      obtain ⟨b', hb', hab'⟩ := hex a' (List.mem_cons_of_mem _ ha')
+      have hne : b' ≠ b := by
+        intro h; subst h
+        exact hp'.1 a' ha' b' hab hab'
+      exact ⟨b', (List.mem_erase_of_ne hne).mpr hb', hab'⟩)
+    have hlen := List.length_erase_of_mem hb
+    have hpos : 0 < B.length := List.length_pos_of_mem hb
+    simp only [List.length_cons]
+    omega
+
+theorem components_count (nodes : List Nat) (es : List Edge) (f : Filt) (R : List Nat)
+    (hR : ∀ r ∈ R, r ∈ nodes) (hpair : R.Pairwise (fun a b => ¬ Reach es f a b))
+    (hcov : ∀ n ∈ nodes, ∃ r ∈ R, Reach es f r n) : (components nodes es f).length = R.length := by
+  obtain ⟨h1, h2, h3⟩ := components_spec nodes es f
+  apply Nat.le_antisymm
+  · apply length_le_of_rel (fun (c : List Nat) (r : Nat) => r ∈ c)
+    · exact h2.imp (fun hd b hb hb' => hd b hb hb')
+    · intro c hc
+      obtain ⟨n, hn, rfl⟩ := h1 c hc
+      obtain ⟨r, hr, hrn⟩ := hcov n hn
+      exact ⟨r, hr, (mem_bfsH es f n r).mpr hrn.symm⟩
+  · apply length_le_of_rel (fun (r : Nat) (c : List Nat) => c ∈ components nodes es f ∧ r ∈ c)
+    · exact hpair.imp (fun {a b} hab c hac hbc =>
+        hab ((components_class nodes es f c hac.1 a hac.2 b).mp hbc.2))
+    · intro r hr
+      obtain ⟨c, hc, hrc⟩ := h3 r (hR r hr)
+      exact ⟨c, hc, hc, hrc⟩
+
 /-! ## `max(components, key=len)` -/
 
 theorem foldl_max_spec (t : List (List Nat)) : ∀ (c : List Nat),
